@@ -188,6 +188,11 @@ def _bit_operands(rng, ver, v):
     out += [('a', ver, rand_value(rng, w)), ('a', ver, m ^ v), ('a', ver, m), ('a', ver, 0),
             ('a', 4, rand_value(rng, 32)), ('a', 6, rand_value(rng, 128)),
             ('a', 10 - ver, v & ((1 << W[10 - ver]) - 1))]
+    # address operands of the other family that *embed* this one (mapped, compatible, 6to4, NAT64 ...) or are its low bits
+    if ver == 4:
+        out += [('a', 6, x) for x in rng.sample(common.embeddings(rng, v), 4)]
+    else:
+        out += [('a', 4, v & 0xffffffff), ('a', 4, (v >> 80) & 0xffffffff)]
     return out
 
 
